@@ -1,10 +1,158 @@
 package sym
 
+import (
+	"go/types"
+	"strings"
+)
+
 // File-system intrinsics (DESIGN.md 3.2). Grown per obligation.
 
 func registerFS(e *Engine) {
 	// os.MkdirAll: directory creation succeeds (I/O faults are outside every quantifier).
 	e.Intr["os.MkdirAll"] = func(c *Call) []*State {
 		return c.Return(Iface{})
+	}
+}
+
+// bufio.Scanner over a strings.Reader (ScanLines): the scanner is a heap object holding
+// the unread remainder of the string.
+type scanState struct {
+	Rest *Term
+	Tok  *Term
+}
+
+func registerScanner(e *Engine) {
+	e.Intr["strings.NewReader"] = func(c *Call) []*State {
+		id := c.St.Alloc(Opaque{Kind: "strings.Reader", Data: c.argTerm(0)})
+		return c.Return(Ptr{Obj: id})
+	}
+	e.Intr["bufio.NewScanner"] = func(c *Call) []*State {
+		r := c.Args[0].(Iface)
+		p, ok := r.V.(Ptr)
+		if !ok || p.IsNil() {
+			panic(unsupported("bufio.NewScanner over a reader without model"))
+		}
+		o, ok := c.St.Heap[p.Obj].(Opaque)
+		if !ok || o.Kind != "strings.Reader" {
+			panic(unsupported("bufio.NewScanner over a reader without model"))
+		}
+		id := c.St.Alloc(Opaque{Kind: "bufio.Scanner", Data: scanState{Rest: o.Data.(*Term), Tok: StrC("")}})
+		return c.Return(Ptr{Obj: id})
+	}
+	get := func(c *Call) (int, scanState) {
+		p := c.Args[0].(Ptr)
+		return p.Obj, c.St.Heap[p.Obj].(Opaque).Data.(scanState)
+	}
+	dropCR := func(l *Term) *Term {
+		if l.Const {
+			return StrC(strings.TrimSuffix(l.S, "\r"))
+		}
+		n := StrLenInt(l)
+		return Ite(StrSuffixOf(StrC("\r"), l), StrSubstr(l, IntC(0), intArith("-", n, IntC(1))), l)
+	}
+	e.Intr["(*bufio.Scanner).Scan"] = func(c *Call) []*State {
+		obj, ss := get(c)
+		rest := ss.Rest
+		if rest.Const {
+			if rest.S == "" {
+				return c.Return(False)
+			}
+			i := strings.Index(rest.S, "\n")
+			var line, nr string
+			if i < 0 {
+				line, nr = rest.S, ""
+			} else {
+				line, nr = rest.S[:i], rest.S[i+1:]
+			}
+			c.St.Heap[obj] = Opaque{Kind: "bufio.Scanner", Data: scanState{Rest: StrC(nr), Tok: StrC(strings.TrimSuffix(line, "\r"))}}
+			return c.Return(True)
+		}
+		l := FreshVar("scan.line", SString, 0)
+		nr := FreshVar("scan.rest", SString, 0)
+		nl := StrC("\n")
+		set := func(tok, r *Term) func(*State) {
+			return func(st *State) { st.Heap[obj] = Opaque{Kind: "bufio.Scanner", Data: scanState{Rest: r, Tok: tok}} }
+		}
+		return c.Outcomes(c.sol2(), []Outcome{
+			{Cond: Eq(rest, StrC("")), Ret: False},
+			{Cond: And(Not(Eq(rest, StrC(""))), Not(StrContains(rest, nl))), Ret: True, Eff: set(dropCR(rest), StrC(""))},
+			{Cond: And(Eq(rest, StrConcat(l, nl, nr)), Not(StrContains(l, nl))), Ret: True, Eff: set(dropCR(l), nr)},
+		})
+	}
+	e.Intr["(*bufio.Scanner).Text"] = func(c *Call) []*State {
+		_, ss := get(c)
+		return c.Return(ss.Tok)
+	}
+	e.Intr["(*bufio.Scanner).Err"] = func(c *Call) []*State { return c.Return(Iface{}) }
+}
+
+// encoding/json.Marshal (DESIGN.md 3.3): the payload is opaque; Marshal fails exactly
+// when the value graph contains a map whose key type is not a string/integer kind
+// (map[any]any from an untyped YAML tree) or a NaN/Inf float; channels and funcs do not
+// occur in the kernels.
+func (e *Engine) jsonUnsupported(st *State, v Value, depth int) string {
+	if depth > 24 {
+		return ""
+	}
+	switch x := v.(type) {
+	case Iface:
+		if x.T == nil {
+			return ""
+		}
+		return e.jsonUnsupported(st, x.V, depth+1)
+	case MapRef:
+		if x.Obj == 0 {
+			return ""
+		}
+		mo := st.Heap[x.Obj].(*MapObj)
+		if _, isIface := mo.KT.Underlying().(*types.Interface); isIface {
+			return "json: unsupported type: " + types.NewMap(mo.KT, mo.VT).String()
+		}
+		for _, mv := range mo.Vals {
+			if r := e.jsonUnsupported(st, mv, depth+1); r != "" {
+				return r
+			}
+		}
+	case Slice:
+		for i := 0; i < x.Len; i++ {
+			if r := e.jsonUnsupported(st, st.Load(Ptr{Obj: x.Obj, Path: []int{x.Off + i}}), depth+1); r != "" {
+				return r
+			}
+		}
+	case *Struct:
+		for _, f := range x.F {
+			if r := e.jsonUnsupported(st, f, depth+1); r != "" {
+				return r
+			}
+		}
+	case *Array:
+		for _, f := range x.E {
+			if r := e.jsonUnsupported(st, f, depth+1); r != "" {
+				return r
+			}
+		}
+	case Ptr:
+		if x.IsNil() {
+			return ""
+		}
+		if _, isOpaque := st.Heap[x.Obj].(Opaque); isOpaque {
+			return ""
+		}
+		return e.jsonUnsupported(st, st.Load(x), depth+1)
+	case Float:
+		if x.NaN || x.Inf {
+			return "json: unsupported value: NaN/Inf"
+		}
+	}
+	return ""
+}
+
+func registerJSON(e *Engine) {
+	e.Intr["encoding/json.Marshal"] = func(c *Call) []*State {
+		if msg := e.jsonUnsupported(c.St, c.Args[0], 0); msg != "" {
+			return c.Return(Tuple{Slice{}, e.newErrorString(c.St, StrC(msg))})
+		}
+		p := FreshVar("json.payload", SString, 0)
+		return c.Return(Tuple{Bytes{S: p}, Iface{}})
 	}
 }
